@@ -11,7 +11,7 @@ import (
 func VerifC06ParseTG() {
 	max := int64(26)
 	if rt.Tier() == 1 {
-		max = 40
+		max = 32
 	}
 	n := int(rt.Fix(rt.Int("len", 0, max)))
 	buf := rt.Bytes("tg", n)
@@ -32,7 +32,7 @@ func VerifC06ParseTG() {
 func VerifC06ParseDSV() {
 	max := int64(12)
 	if rt.Tier() == 1 {
-		max = 24
+		max = 18
 	}
 	n := int(rt.Fix(rt.Int("len", 0, max)))
 	buf := rt.Bytes("b", n)
